@@ -183,6 +183,28 @@ fn gen_lines(rng: &mut Rng, avoid: &[String]) -> Vec<String> {
         }
         lines.push(l);
     }
+    // handle graphs: collections that contain their own handle or each other, then recursive release
+    if rng.chance(1, 5) {
+        let mut block: Vec<String> = vec![];
+        for _ in 0..1 + rng.usize(3) {
+            block.push(
+                match rng.below(6) {
+                    0 => "array_push ${arr} ${arr}",
+                    1 => "map_put ${mp} self ${mp}",
+                    2 => "array_push ${arr0} ${arr}",
+                    3 => "array_push ${arr} ${arr0}",
+                    4 => "set_put ${st} ${st}",
+                    _ => "map_put ${mp} a ${arr}",
+                }
+                .to_string(),
+            );
+        }
+        block.push(format!("release {} {}", rng.pick(&["-r", "--recursive", "-r", ""]), rng.pick(&["${arr}", "${mp}", "${st}", "${arr0}"])).replace("  ", " "));
+        let at = PRELUDE.len() + rng.usize(lines.len() - PRELUDE.len() + 1);
+        for (k, b) in block.into_iter().enumerate() {
+            lines.insert(at + k, b);
+        }
+    }
     lines
 }
 
